@@ -339,21 +339,25 @@ theorem saved_only_against_current_parents (s : Sys) (d : ProgDecl) (linked : Li
         (∀ f, f ∈ lp.files → ∀ t, s.w.mtime f = some t → t ≤ lp.loadTime) := by
   unfold saveStep at h
   by_cases hs : d.save = true
-  · by_cases ha : saveAllowed s.w linked = true
-    · intro pg hpg r hr
+  · by_cases ha : saveAllowed s.w linked = true ∧ d.refuse = false
+    · obtain ⟨ha, _⟩ := ha
+      intro pg hpg r hr
       unfold saveAllowed at ha
       have : linked.any (fun pg => progOutdated s.w treeFuel pg.1 pg.2) = false := by simpa using ha
       rw [List.any_eq_false] at this
       exact progOutdated_false_reach s.w hr treeFuel (by simpa using this pg hpg)
-    · simp [hs, ha] at h
+    · have : (d.refuse || !(saveAllowed s.w linked)) = true := by
+        cases hr : d.refuse <;> cases hsa : saveAllowed s.w linked <;> simp_all
+      simp [hs, this] at h
       exact absurd h hnew
   · simp [hs] at h
     exact absurd h hnew
 
 /-- and it is not more cautious than that: with current parents a `#pragma save_binary` program is saved -/
 theorem current_parents_are_saved (s : Sys) (d : ProgDecl) (linked : List (String × Nat)) (hs : d.save = true)
-    (ha : saveAllowed s.w linked = true) : Ev.sv d.name s.vnow d.includes ∈ (saveStep s d linked).evs := by
-  simp [saveStep, hs, ha]
+    (hr : d.refuse = false) (ha : saveAllowed s.w linked = true) :
+    Ev.sv d.name s.vnow d.includes ∈ (saveStep s d linked).evs := by
+  simp [saveStep, hs, hr, ha]
 
 /-- non-vacuity: a inherits b (block 3, loaded at 1013) inherits c (block 2).  Saved; but not after b.c was edited at
     1024 while b stays loaded, not after c was loaded again (block 5) under b, not with a header of c touched -/
